@@ -6,19 +6,27 @@ SPEC = {
                   "appends it (order extracted from the source); forwarding rule; Apply is state-passing and returns the plugin unchanged, "
                   "n-fold rebuilds are identical; PREF64 lifetime = min(65528 s, 8 s * ceil(3*max/8 s)). Tie: differential runs of "
                   "config.Parse + Interface.RouterAdvertisement on generated TOML x system states, plus implementation-only checks "
-                  "(k builds deeply equal, deep configuration snapshot unchanged by building).",
+                  "(k builds deeply equal, deep configuration snapshot unchanged by building -- also by the rebuild and comparison which "
+                  "Advertiser.handle performs when another router's RA is received).",
     "level_note": "Trusted: Coq kernel + vm_compute; goextract (plugin order, Apply option types, NewPREF64 constants); the Go driver "
                   "(conversion of config.Interface / ndp options to Gallina terms); wildcard expansion functions are mirrored from the "
                   "Go code (their own properties are C13-C15); go-toml decoding is outside the model.",
-    "drivers": [{"pkg": "internal/config", "test": "TestVerifC01", "timeout": 1500}],
+    "drivers": [{"pkg": "internal/config", "test": "TestVerifC01", "timeout": 1500},
+                {"pkg": "internal/corerad", "test": "TestVerifC01Handle", "timeout": 600}],
     "rule": "random TOML interface: every header key absent / at a limit / random (fractional max_interval, default_lifetime 0 / auto / max / 9000s, "
             "timers 0..1h with sub-ms parts), 0..3 stanzas of each kind (prefix static or ::/64, route static with lengths not multiple of 8 or ::/0, "
             "rdnss static / :: / empty, dnssl, pref64 default / given / invalid), mtu, source_lla, captive_portal, deprecated flags with boundary lifetimes; "
             "system state: 0..6 addresses (GUA/ULA/LL/IPv4/IPv4-mapped, flags, duplicates of a /64), 0..5 loopback routes (covering pairs, /128, IPv4, "
             "duplicates), failing OS calls, MAC absent / 6 / 8 bytes, clock at / around deadlines and before the epoch, forwarding on/off; 1..3 builds. "
             "Plus the cross product stanza kind present/absent (2^8) x forwarding x MAC (sampled in quick, full in thorough). "
+            "Implementation-only stream TestVerifC01Handle (package corerad): a real Advertiser on a parsed configuration (static stanzas whose "
+            "domain_names / servers lists have 2..5 elements NOT in ascending order, stanzas not in ascending order, 30% `names` groups of three "
+            "interfaces sharing the decoded slices) receives 1..4 peer RAs derived from the wire image of its own RA (identical; lists permuted or "
+            "sorted with the same option and element counts; one element replaced; lifetimes changed; options shuffled / dropped / duplicated; "
+            "unrelated); a deep by-content dump of ALL interfaces taken before the first reception must equal the dump after every reception and "
+            "every interface's RA rebuilt after every reception must equal the first one. "
             "Non-trivial: the configuration was accepted and has at least one plugin; distinct by canonical input.",
-    "nontrivial": lambda c: bool(c.get("coq")) and c.get("input", {}).get("plugins", 0) > 0,
+    "nontrivial": lambda c: (bool(c.get("coq")) or bool(c.get("input", {}).get("peers"))) and c.get("input", {}).get("plugins", 0) > 0,
     "trusted": ["wildcard expansions (Prefix.current, Route.current, RDNSS.current) are part of the model by mirroring; their specifications are C13-C15",
                 "'building never alters the configuration' is checked on the implementation only (reflect-based deep snapshots before / after)"],
     "assumptions": ["the plugin sources are injected (Addrs/Routes/TimeNow/LLA.Addr) as Prepare would set them; a nil source (unprepared plugin) is C17's subject",
